@@ -194,8 +194,10 @@ def wait_h(name, uw, b):
 
 
 WB = {"clock": "virtual monotonic clock, start any (sec < 2^40, nsec); advances only in sleeps (no drift)", "child": "exits at any status check or never; pre-state any (also already Finished)"}
+WBACK = H("popen", "h_wait_backoff", unwind=3, unwindset=[(r"os_wait_timeout", 12)], timeout=1800, mem_gb=20, covers=["COVER/steady-state-reached"],
+          bounds={"d": "10 s from t = 0 (concrete)", "child": "exits at any of the first 10 status checks", "iterations": "11 (1..64 ms doubling, then 100 ms steady state)"})
 REG["C11"] = Spec(
-    quick=[life_step(),
+    quick=[life_step(), WBACK,
            wait_h("h_wait_small", 7, dict(WB, d="0..=20 ms, nanosecond resolution (doubling phase 1,2,4,8 ms + clipped last sleep)")),
            wait_h("h_wait_large", 7, dict(WB, d="1 s .. 2^40 s; child exits within the first 4 back-off intervals"))],
     thorough=[life_step(),
@@ -266,7 +268,7 @@ REG["C17"] = Spec(
     encodes=["PopenOs::os_start (child branch)", "PopenOsImpl::do_exec", "posix::PrepExec::{exec,assemble_exe,libc_exec}", "posix::reset_sigpipe", "error report path (write_all to the status pipe, _exit)", "std::env::set_current_dir"],
     bounds="every stream configuration; success and each child-side step failing; PATH shapes of 4 bytes; cwd short (stack buffer path of std's run_with_cstr)",
     outside="cwd of 384+ bytes (std allocates a CString for long paths -- in std, not in the crate); deallocation is not counted; allocation inside libc calls",
-    assumptions=SPAWN_ASSUME + ["observer: std::alloc::{alloc,alloc_zeroed,realloc} stubbed by counting wrappers delegating to System (h_alloc_witness proves Vec/Box/CString/Rc/Vec-growth move the counter in this build)"],
+    assumptions=SPAWN_ASSUME + ["observer: Kani's C model of __rust_alloc/__rust_alloc_zeroed/__rust_realloc with a counter increment added at link time (below every std container; h_alloc_witness proves Vec/Box/CString/Rc allocations and Vec growth move it, and a write within capacity does not)"],
     explanation="the model fork snapshots an allocation counter in child role; every later model call (each child-side step, exec, the error report write, _exit) asserts the counter has not moved",
 )
 
@@ -306,8 +308,11 @@ COMM_ASSUME = COMMON_ASSUME[:1] + COMMON_ASSUME[3:] + [
 CB = {"transfer": "1..=3 bytes per system call (parent results and child actions)", "pipe_capacity": "4096..=2^20 (symbolic)", "content": "position-tagged bytes g(tag, pos), tag symbolic per stream"}
 
 
+SPIN = [(r"read_into", "C01/loop-iterates-without-system-call: the communicate loop ran more iterations than the system-call budget allows, i.e. it iterates without issuing any system call (spinning)")]
+
+
 def comm_h(name, streams, input_len, budget, kind="proof", timeout=2400, **kw):
-    return H("comm", name, unwind=3, unwindset=COMM_UW, timeout=timeout, mem_gb=20, kind=kind,
+    return H("comm", name, unwind=3, unwindset=[(r"read_into", budget + 3)] + COMM_UW, timeout=timeout, mem_gb=20, kind=kind, spin_loops=SPIN,
              bounds=dict(CB, streams=streams, input_len=input_len, parent_syscalls=budget), **kw)
 
 
